@@ -58,6 +58,22 @@ func main() {
 		rn.MarshalCase("marshal-int-string", pvOf(), mv.Native(gocql.Type(id)), mv.VStr(false, z.String()), true)
 	}
 
+	// deterministic systematic cases shared with the C02 harness (integer strings, vint / varint boundaries):
+	// marshal side against the specification, and the reference encoding decoded into the targets
+	for i, sc := range mv.SharedSystematic() {
+		pv := 1 + i%5
+		rn.MarshalCase(sc.Kind, pv, sc.T, sc.V, true)
+		c, null, ok := mv.Denote(sc.T, sc.V)
+		if !ok || null {
+			continue
+		}
+		if data, eok := mv.SpecEncode(pv, sc.T, c); eok {
+			for _, g := range sc.Gs {
+				rn.DecodeCase(sc.Kind+"-decode", pv, sc.T, data, g, c, false, true, "specification-conformant encoding")
+			}
+		}
+	}
+
 	// 2. native columns, documented sources (mode 0) and arbitrary sources (mode 1)
 	for i := 0; i < 500*S; i++ {
 		id := mv.NativeIDs[r.Intn(len(mv.NativeIDs))]
